@@ -177,3 +177,28 @@ Lemma event_table_bounded_tie :
      | None => false
      end) [[CNormal "r"; CNormal "a.x"]; [CNormal "r"]; []]) all_kinds = true.
 Proof. vm_compute. reflexivity. Qed.
+
+(* ---- the frame around the table: every path of every Ok event goes through the table and
+   id_of_path for every root, and whatever results is sent in one batch; nothing filters events
+   before the table (the only way out is the table's own arm for Access / Other) ---- *)
+Definition count_returns (l : list expr) : nat :=
+  List.length (filter (fun e => match e with EReturn _ => true | _ => false end) (flat_map (subexprs 64) l)).
+
+Definition handle_event_frame_wf (f : fn_def) : bool :=
+  match fn_body f with
+  | [EMatch (EPath ["event"])
+       [(PTupleStruct ["Ok"] [PIdent "event" None], None,
+         EBlock [ESemi (EMacro _ _);
+                 EFor (PIdent "path" None) (EField (EPath ["event"]) "paths")
+                   [ELetS (PIdent "paths" None) (Some (EMatch (EField (EPath ["event"]) "kind") _)) None;
+                    ELetS (PIdent "ids" None)
+                      (Some (EMethod (EMethod (EMethod (EPath ["paths"]) "into_iter" []) "flat_map" [_]) "filter_map"
+                               [EClosure _ (ECall (EPath ["id_of_path"]) _)])) None;
+                    EIf (EMethod (EMethod (EField (EPath ["self"]) "events") "send_multiple" [EPath ["ids"]]) "is_err" []) _ None]]);
+        (PTupleStruct ["Err"] [PIdent _ None], None, EMacro _ _)]] =>
+    Nat.eqb (count_returns (fn_body f)) 1
+  | _ => false
+  end.
+
+Lemma handle_event_frame : handle_event_frame_wf handle_event = true.
+Proof. vm_compute. reflexivity. Qed.
